@@ -73,6 +73,20 @@ class EventLog:
             for tname, timer in mdl.timer_params.items():
                 if timer.callback is not None:
                     timer.callback = self._wrap_cb(mdl, tname, timer.callback)
+        # time-series updates are applied by TimeSeries.apply_exact (called from System.switch_action and at init)
+        ts = getattr(ss, "TimeSeries", None)
+        if ts is not None and ts.n > 0:
+            orig = ts.apply_exact
+            log = self
+
+            def apply_exact(t, _orig=orig):
+                prev = log._cb
+                log._cb = ("TimeSeries", "apply_exact")
+                try:
+                    return _orig(t)
+                finally:
+                    log._cb = prev
+            ts.apply_exact = apply_exact
 
     def _wrap_cb(self, mdl, tname, cb):
         log = self
